@@ -30,11 +30,11 @@ theorem discarded_counter_exact (cfg : Cfg) (d : DST) (ops : List Op) (bytes : N
       nDisc (runOps cfg d ops (rtInit bytes p)).log % 4294967296 :=
   (runOps_inv cfg d ops _ (rtInit_inv d bytes p)).disc
 
-theorem discard_only_if (cfg : Cfg) (d : DST) (erSize : Nat) (s : St)
-    (hn : (reserve cfg d erSize s).2.halted = false) (h : (reserve cfg d erSize s).1 = false) :
-    erSize > s.c.room s.c.offContent ∨
-    ∃ new, (reserve cfg d erSize s).2.log = new ++ s.log ∧ Ev.fullAnswer true ∈ new :=
-  reserve_reason cfg d erSize s hn h
+theorem discard_only_if (cfg : Cfg) (d : DST) (erSize emptySize : Nat) (s : St)
+    (hn : (reserve cfg d erSize emptySize s).2.halted = false) (h : (reserve cfg d erSize emptySize s).1 = false) :
+    emptySize > s.c.room s.c.offContent ∨
+    ∃ new, (reserve cfg d erSize emptySize s).2.log = new ++ s.log ∧ Ev.fullAnswer true ∈ new :=
+  reserve_reason cfg d erSize emptySize s hn h
 
 /-- one tracing call that passed its enable test: exactly one record or exactly one discard -/
 theorem one_call_one_outcome (cfg : Cfg) (d : DST) (e : ERT) (args : Args) (s : St)
